@@ -87,6 +87,8 @@ type simStream struct {
 	maxEmpty int
 	c        *runCtx
 	closed   bool
+	sawEOF   bool // the stream has told the reader that it is over
+	sawErr   bool // the stream has failed
 }
 
 var errSimRead = errors.New("simulated read error")
@@ -97,6 +99,7 @@ func (s *simStream) Read(p []byte) (int, error) {
 	}
 	if s.errAt >= 0 && s.off >= s.errAt {
 		s.c.count("fault.read_error", 1)
+		s.sawErr = true
 		return 0, errSimRead
 	}
 	if s.giveUp > 0 && s.off >= s.giveUp {
@@ -104,6 +107,7 @@ func (s *simStream) Read(p []byte) (int, error) {
 		return 0, nil
 	}
 	if s.off >= len(s.data) {
+		s.sawEOF = true
 		return 0, io.EOF
 	}
 	want := -1
@@ -302,6 +306,11 @@ func runFeed(c *runCtx) {
 	c.count("records", len(want))
 	c.count("bytes", len(consumed))
 
+	// (0) the reader stops for a reason: end of the stream, a read error, or a source that has returned nothing
+	// a hundred times in a row (the documented give-up). Anything else loses the rest of the input.
+	if !src.sawEOF && !src.sawErr && !(plan.GiveUp > 0 && src.off >= src.giveUp && src.empties >= 100) {
+		c.violate("feed.stopped_early", "the reader stopped after %d of %d bytes although the stream had neither ended nor failed nor stalled (%d reads)", src.off, len(stream), src.ri)
+	}
 	// (1) count, order, content
 	if len(got) != len(want) {
 		c.violate("feed.count", "pushed %d records, reference splitter gives %d (consumed %d of %d bytes; read0=%v errAt=%d)",
